@@ -16,5 +16,6 @@ import (
 	_ "verifharness/internal/pool"
 	_ "verifharness/internal/pubkeycache"
 	_ "verifharness/internal/shuffle"
+	_ "verifharness/internal/committees"
 	_ "verifharness/internal/ssz"
 )
